@@ -2,6 +2,7 @@ package ntlm
 
 import (
         "encoding/base64"
+	"encoding/binary"
         "errors"
 	"github.com/bolkedebruin/rdpgw/cmd/auth/database"
 	"github.com/bolkedebruin/rdpgw/shared/auth"
@@ -99,6 +100,10 @@ func (c *ntlmContext) Authenticate(authorisationEncoded string, r *auth.NtlmResp
 		return errors.New(fmt.Sprintf("Failed to decode NTLM Authorisation header: %s", err))
         }
 
+	if err := checkMessageBounds(authorisation); err != nil {
+		return err
+	}
+
         nm, err := ntlm.ParseNegotiateMessage(authorisation)
         if err == nil {
 		return c.negotiate(nm, r)
@@ -115,6 +120,45 @@ func (c *ntlmContext) Authenticate(authorisationEncoded string, r *auth.NtlmResp
         }
 
 	return errors.New(fmt.Sprintf("Failed to parse NTLM Authorisation header: %s", err))
+}
+
+// checkMessageBounds verifies what the go-ntlm parsers index without checking:
+// the fixed part of a message and the security buffers pointing into it
+func checkMessageBounds(m []byte) error {
+	if len(m) < 12 {
+		return errors.New("NTLM message too short")
+	}
+	var fields []int
+	switch binary.LittleEndian.Uint32(m[8:12]) {
+	case 1:
+		if len(m) < 32 {
+			return errors.New("NTLM negotiate message too short")
+		}
+		fields = []int{16, 24}
+	case 3:
+		fields = []int{12, 20, 28, 36, 44}
+		// the session key field only exists when the payload starts behind it
+		lowest := uint32(len(m))
+		for _, f := range fields {
+			if len(m) >= f+8 && binary.LittleEndian.Uint16(m[f:]) > 0 && binary.LittleEndian.Uint32(m[f+4:]) < lowest {
+				lowest = binary.LittleEndian.Uint32(m[f+4:])
+			}
+		}
+		if lowest > 52 {
+			fields = append(fields, 52)
+		}
+	}
+	for _, f := range fields {
+		if len(m) < f+8 {
+			break
+		}
+		size := uint64(binary.LittleEndian.Uint16(m[f:]))
+		offset := uint64(binary.LittleEndian.Uint32(m[f+4:]))
+		if size > 0 && offset+size > uint64(len(m)) {
+			return errors.New("NTLM message field points outside the message")
+		}
+	}
+	return nil
 }
 
 func (c *ntlmContext) negotiate(nm *ntlm.NegotiateMessage, r *auth.NtlmResponse) (error) {
@@ -152,6 +196,15 @@ func (c *ntlmContext) authenticate(am *ntlm.AuthenticateMessage, r *auth.NtlmRes
 		return errors.New(fmt.Sprintf("NTLM Authenticate requires active session: first call negotioate"))
         }
         
+	// the session dereferences the session key field and, with key exchange
+	// negotiated, slices the decrypted key without checking either
+	if am.EncryptedRandomSessionKey == nil {
+		return errors.New("NTLM authenticate message without session key field")
+	}
+	if ntlm.NTLMSSP_NEGOTIATE_KEY_EXCH.IsSet(am.NegotiateFlags) && len(am.EncryptedRandomSessionKey.Payload) != 16 {
+		return errors.New("NTLM authenticate message with invalid session key")
+	}
+
         username := am.UserName.String()
         password := c.h.Database.GetPassword (username)
         if password == "" {
